@@ -189,6 +189,13 @@ class SymSession(_PatchMixin):
     def claim_is(self, name, a, b):
         self.claims.append((name, z3.BoolVal(a is b)))
 
+    def claim_le(self, name, a, b):
+        """a <= b (decided in R; the concrete replay allows rounding slack)"""
+        self.claim(name, a <= b)
+
+    def claim_ge(self, name, a, b):
+        self.claim(name, a >= b)
+
     def claim_iff(self, name, concrete, cond):
         """concrete (a bool the real code returned on this path) <=> cond"""
         concrete = bool(concrete)
@@ -319,6 +326,14 @@ class ConcSession(_PatchMixin):
     def claim_is(self, name, a, b):
         self.claims.append((name, a is b, None))
 
+    def claim_le(self, name, a, b):
+        a, b = float(a), float(b)
+        tol = 1e-9 * max(1.0, abs(a), abs(b))
+        self.claims.append((name, a <= b + tol, max(0.0, a - b)))
+
+    def claim_ge(self, name, a, b):
+        self.claim_le(name, b, a)
+
     def claim_iff(self, name, concrete, cond):
         self.claims.append((name, bool(concrete) == bool(cond), None))
 
@@ -388,12 +403,9 @@ class PathResult:
         self.chart = chart
 
 
-def explore(ob, anti_all=False):
-    """Depth-first path exploration of ob.body.  Returns (paths, stats)."""
-    paths = []
+def explore_iter(ob, anti_all, stats):
+    """Depth-first path exploration of ob.body; yields PathResult per feasible path."""
     work = [[]]
-    stats = dict(paths=0, infeasible=0, decisions=0, feas_queries=0, feas_unknown=0,
-                 budget_hit=False)
     while work:
         if stats['paths'] >= ob.max_paths:
             stats['budget_hit'] = True
@@ -427,7 +439,16 @@ def explore(ob, anti_all=False):
             stats['paths'] += 1
             pr = PathResult(c, S, 'anti' if anti_all else 'std')
             pr.exc = exc
-            paths.append(pr)
+            yield pr
+
+
+def new_stats():
+    return dict(paths=0, infeasible=0, decisions=0, feas_queries=0, feas_unknown=0, budget_hit=False)
+
+
+def explore(ob, anti_all=False):
+    stats = new_stats()
+    paths = list(explore_iter(ob, anti_all, stats))
     return paths, stats
 
 
@@ -625,6 +646,53 @@ def _num(x):
     return None
 
 
+def _concrete_probe(ob, p, env, res, tag):
+    """Run the unmodified float code on `env`; compare observations with the
+    symbolic encoding of path p and collect failing claims.  Returns True when the
+    run counted as a validation."""
+    fe = feval.FEval(p.c, env)
+    try:
+        on_path = all(fe.ev(t) for t in p.c.path) and all(fe.ev(t) for t, _ in p.c.assumptions)
+    except (feval.FEvalError, ZeroDivisionError, OverflowError, ValueError):
+        on_path = False
+    try:
+        S = run_concrete(ob, env)
+    except Discard:
+        return False
+    except Exception as e:
+        if getattr(p, 'exc', None) is not None and type(e).__name__ == p.exc[0]:
+            return False
+        if on_path:
+            res['errors'].append(f"encoding mismatch ({tag}): concrete run raised {e!r} on a path that did not; "
+                                 f"env={env}\n{traceback.format_exc()[-1500:]}")
+        return False
+    if on_path and getattr(p, 'exc', None) is None:
+        conc = dict(S.obs)
+        for name, term in p.sess.obs:
+            if name not in conc:
+                continue
+            try:
+                sv = term[1] if isinstance(term, tuple) else fe.ev(term)
+            except (feval.FEvalError, ZeroDivisionError, OverflowError, ValueError):
+                continue
+            cv = conc[name]
+            if isinstance(sv, bool) or isinstance(cv, bool):
+                bad = bool(sv) != bool(cv)
+            else:
+                bad = not (abs(sv - cv) <= 1e-6 * max(1.0, abs(cv)))
+            if bad:
+                res['errors'].append(f"encoding mismatch ({tag}): {name}: symbolic {sv} vs concrete {cv}; env={env}")
+                break
+    for name, ok, d in S.claims:
+        if not ok:
+            res['violations'].append(dict(claim=name, env=env, uf_tables={}, discrepancy=d, failed=[name],
+                                          found_by=tag))
+            res['claims'].append(dict(name=name, path=-1, chart=p.chart, verdict='violated', s=0.0,
+                                      engine='float-probe+replay'))
+            break
+    return on_path
+
+
 def run_obligation(ob, seed=0, timeout_scale=1.0):
     t0 = time.time()
     res = dict(id=ob.id, verdict='held', claims=[], paths=0, decisions=0, queries=0,
@@ -632,160 +700,190 @@ def run_obligation(ob, seed=0, timeout_scale=1.0):
                stubs=ob.stubs, outside=ob.outside, notes=[ob.notes] if ob.notes else [],
                assumptions=[], violations=[], undecided=[], errors=[], infeasible_paths=0,
                vacuity_checked=0, angle_mode=ob.angle_mode, charts=[], inputs=[])
-    all_paths = []
+    rng = random.Random(seed)
+    budget_s = ob.wall_s * 0.8
+    seen_assump = set()
+    sample_claims = []
+    batch_fail = 0
+    npaths_total = 0
+    first_specs = None
     try:
         chart_runs = [False]
         if ob.angle_mode == 'chart' and ob.charts == 'both':
             chart_runs = [False, True]
+        stop = False
         for anti_all in chart_runs:
-            paths, st = explore(ob, anti_all)
-            if anti_all and not any(p.c.base_order for p in paths):
-                continue   # no angles: the second chart is the same run
-            res['charts'].append('antipodal' if anti_all else 'standard')
-            res['paths'] += st['paths']
+            if stop:
+                break
+            st = new_stats()
+            any_angles = False
+            chart_name = 'antipodal' if anti_all else 'standard'
+            for p in explore_iter(ob, anti_all, st):
+                pi_ = npaths_total
+                npaths_total += 1
+                c = p.c
+                if c.base_order:
+                    any_angles = True
+                elif anti_all:
+                    # no angle on this path: identical to the standard-chart run
+                    continue
+                if first_specs is None:
+                    first_specs = p.sess.specs
+                    res['inputs'] = sorted(c.inputs)
+                cons = c.all_constraints()
+                for _, text in c.assumptions:
+                    seen_assump.add(text)
+                # vacuity twin (also gives a model that follows this path)
+                s = z3.Solver()
+                s.set('timeout', int(10000 * timeout_scale))
+                s.add(*cons)
+                r = s.check()
+                res['queries'] += 1
+                if r == z3.unsat:
+                    res['errors'].append(f"vacuous path {pi_} ({p.chart})")
+                    continue
+                path_env = None
+                if r == z3.sat:
+                    res['vacuity_checked'] += 1
+                    try:
+                        path_env = derive_env(c, s.model())
+                    except Exception:
+                        path_env = None
+                if getattr(p, 'exc', None) is not None:
+                    env = path_env or {}
+                    cname = 'no_unexpected_exception:' + p.exc[0]
+                    try:
+                        run_concrete(ob, env)
+                        res['errors'].append(f"path {pi_}: exception only in symbolic mode: {p.exc[1]}\n{p.exc[2]}")
+                    except Discard:
+                        res['errors'].append(f"path {pi_}: symbolic exception, concrete inputs discarded: "
+                                             f"{p.exc[1]}\n{p.exc[2]}")
+                    except Exception as e2:
+                        if type(e2).__name__ == p.exc[0]:
+                            res['violations'].append(dict(claim=cname, env=env, uf_tables={}, discrepancy=None,
+                                                          failed=[cname], extra=dict(exception=repr(e2)[:300])))
+                            res['claims'].append(dict(name=cname, path=pi_, chart=p.chart, verdict='violated',
+                                                      s=0.0, engine='replay'))
+                        else:
+                            res['errors'].append(f"path {pi_}: symbolic {p.exc[1]} vs concrete {e2!r}\n{p.exc[2]}")
+                    if len(res['violations']) >= 2:
+                        stop = True
+                        break
+                    continue
+                if not p.sess.claims:
+                    res['errors'].append(f"path {pi_} made no claim")
+                # cheap float probes of the real code first: the path's own model, then random inputs
+                if p.chart == 'std' and ob.nvalid:
+                    nv = 0
+                    if path_env is not None and not c.uf:
+                        fill = sample_env(ob, p.sess.specs, rng)
+                        penv = {k: (fill.get(k, 0.5) if v is None else v) for k, v in path_env.items()}
+                        for k, v in fill.items():
+                            penv.setdefault(k, v)
+                        if _concrete_probe(ob, p, penv, res, 'path-model-probe'):
+                            nv += 1
+                    tries = 0
+                    while nv < ob.nvalid and tries < 12 and not res['violations']:
+                        tries += 1
+                        env = sample_env(ob, p.sess.specs, rng)
+                        if _concrete_probe(ob, p, env, res, 'random-probe'):
+                            nv += 1
+                    res['validated'] += nv
+                    if res['violations']:
+                        stop = True
+                        break
+                # solver: groups of claims first, then one query per claim
+                pre = {}
+                todo = []
+                for name, claim in p.sess.claims:
+                    sc = z3.simplify(claim)
+                    if z3.is_true(sc):
+                        pre[name] = ('unsat', 0.0, 'simplify')
+                    else:
+                        todo.append((name, claim))
+                if len(todo) > 1 and ob.batch and batch_fail < 2:
+                    for i0 in range(0, len(todo), ob.batch):
+                        if batch_fail >= 2:
+                            break
+                        grp = todo[i0:i0 + ob.batch]
+                        okb, secs, eng = solve.check_batch(cons, [cl for _, cl in grp],
+                                                           ob.timeout_s * 1000 * timeout_scale)
+                        res['queries'] += 1
+                        res['solver_s'] += secs
+                        if not okb:
+                            batch_fail += 1
+                        if okb:
+                            for nm, _ in grp:
+                                pre[nm] = ('unsat', round(secs / len(grp), 3), eng)
+                for name, claim in p.sess.claims:
+                    if len(res['violations']) >= 2:
+                        break
+                    sc = z3.simplify(claim)
+                    if name in pre:
+                        vd, secs, eng = pre[name]
+                        res['claims'].append(dict(name=name, path=pi_, chart=p.chart, verdict=vd,
+                                                  s=secs, engine=eng))
+                        if len(sample_claims) < 3 and eng != 'simplify':
+                            txt = str(sc)
+                            sample_claims.append(dict(claim=name, path_decisions=len(c.decisions),
+                                                      n_constraints=len(cons),
+                                                      smt=txt if len(txt) < 400 else txt[:400] + '...'))
+                        continue
+                    verdict, model, secs, engine = solve.check(cons, z3.Not(claim),
+                                                              ob.timeout_s * 1000 * timeout_scale)
+                    res['queries'] += 1
+                    res['solver_s'] += secs
+                    entry = dict(name=name, path=pi_, chart=p.chart, verdict=verdict, s=round(secs, 3),
+                                 engine=engine)
+                    if len(sample_claims) < 3:
+                        txt = str(sc)
+                        sample_claims.append(dict(claim=name, path_decisions=len(c.decisions),
+                                                  n_constraints=len(cons),
+                                                  smt=txt if len(txt) < 400 else txt[:400] + '...'))
+                    if verdict == 'unknown' and ob.witness:
+                        model = solve.witness_search(c, z3.Not(claim), 4000, seed)
+                        res['queries'] += 1
+                        if model is not None:
+                            verdict = 'sat'
+                            entry['engine'] = 'z3-witness-search'
+                    if verdict == 'sat':
+                        env = derive_env(c, model)
+                        tables = uf_tables_from_model(c, model)
+                        rep = replay_env(ob, env, tables, name)
+                        entry['replay'] = rep['status']
+                        if rep['status'] == 'reproduced':
+                            entry['verdict'] = 'violated'
+                            res['violations'].append(dict(claim=name, env=env, uf_tables=tables,
+                                                          discrepancy=rep.get('discrepancy'),
+                                                          failed=rep.get('failed')))
+                        else:
+                            entry['verdict'] = 'sat-not-reproduced'
+                            entry['replay_detail'] = rep
+                            res['errors'].append(f"claim {name}: solver model did not reproduce "
+                                                 f"({rep['status']}); env={env}")
+                    elif verdict == 'unknown':
+                        res['undecided'].append(name)
+                    res['claims'].append(entry)
+                if len(res['violations']) >= 2:
+                    res['notes'].append("stopped after 2 reproduced violations")
+                    stop = True
+                    break
+                if time.time() - t0 > budget_s:
+                    res['undecided'].append(f"<exploration stopped after {int(budget_s)}s: {npaths_total} paths done>")
+                    stop = True
+                    break
+            if any_angles or not anti_all:
+                res['charts'].append(chart_name)
+            res['paths'] += st['paths'] if (any_angles or not anti_all) else 0
             res['decisions'] += st['decisions']
             res['queries'] += st['feas_queries']
             res['infeasible_paths'] += st['infeasible']
             if st['budget_hit']:
                 res['errors'].append(f"path budget {ob.max_paths} exhausted")
-            all_paths.extend(paths)
-        if not all_paths:
+        if npaths_total == 0:
             res['errors'].append("no feasible path")
-        seen_assump = set()
-        sample_claims = []
-        batch_fail = 0
-        for pi_, p in enumerate(all_paths):
-            if len(res['violations']) >= 2:
-                res['notes'].append("stopped after 2 reproduced violations")
-                break
-            c = p.c
-            cons = c.all_constraints()
-            for _, text in c.assumptions:
-                if text not in seen_assump:
-                    seen_assump.add(text)
-            # vacuity twin
-            s = z3.Solver()
-            s.set('timeout', int(10000 * timeout_scale))
-            s.add(*cons)
-            r = s.check()
-            res['queries'] += 1
-            if r == z3.unsat:
-                res['errors'].append(f"vacuous path {pi_} ({p.chart})")
-                continue
-            if r == z3.sat:
-                res['vacuity_checked'] += 1
-            if getattr(p, 'exc', None) is not None:
-                # unexpected exception on a symbolic path: a violation iff the real
-                # float run raises too (otherwise the proxies are at fault)
-                env = {}
-                if r == z3.sat:
-                    env = derive_env(c, s.model())
-                cname = 'no_unexpected_exception:' + p.exc[0]
-                try:
-                    run_concrete(ob, env)
-                    res['errors'].append(f"path {pi_}: exception only in symbolic mode: {p.exc[1]}\n{p.exc[2]}")
-                except Discard:
-                    res['errors'].append(f"path {pi_}: symbolic exception, concrete inputs discarded: {p.exc[1]}\n{p.exc[2]}")
-                except Exception as e2:
-                    if type(e2).__name__ == p.exc[0]:
-                        res['violations'].append(dict(claim=cname, env=env, uf_tables={},
-                                                      discrepancy=None, failed=[cname],
-                                                      extra=dict(exception=repr(e2)[:300])))
-                        res['claims'].append(dict(name=cname, path=pi_, chart=p.chart, verdict='violated',
-                                                  s=0.0, engine='replay'))
-                    else:
-                        res['errors'].append(f"path {pi_}: symbolic {p.exc[1]} vs concrete {e2!r}\n{p.exc[2]}")
-                continue
-            if not p.sess.claims:
-                res['errors'].append(f"path {pi_} made no claim")
-            # fast path: groups of claims in one query each
-            pre = {}
-            todo = []
-            for name, claim in p.sess.claims:
-                sc = z3.simplify(claim)
-                if z3.is_true(sc):
-                    pre[name] = ('unsat', 0.0, 'simplify')
-                else:
-                    todo.append((name, claim))
-            if len(todo) > 1 and ob.batch and batch_fail < 2:
-                for i0 in range(0, len(todo), ob.batch):
-                    if batch_fail >= 2:
-                        break
-                    grp = todo[i0:i0 + ob.batch]
-                    okb, secs, eng = solve.check_batch(cons, [cl for _, cl in grp],
-                                                       ob.timeout_s * 1000 * timeout_scale)
-                    res['queries'] += 1
-                    res['solver_s'] += secs
-                    if not okb:
-                        batch_fail += 1
-                    if okb:
-                        for nm, _ in grp:
-                            pre[nm] = ('unsat', round(secs / len(grp), 3), eng)
-            for name, claim in p.sess.claims:
-                if len(res['violations']) >= 2:
-                    break
-                sc = z3.simplify(claim)
-                if name in pre:
-                    vd, secs, eng = pre[name]
-                    res['claims'].append(dict(name=name, path=pi_, chart=p.chart, verdict=vd,
-                                              s=secs, engine=eng))
-                    if len(sample_claims) < 3 and eng != 'simplify':
-                        txt = str(sc)
-                        sample_claims.append(dict(claim=name, path_decisions=len(c.decisions),
-                                                  n_constraints=len(cons),
-                                                  smt=txt if len(txt) < 400 else txt[:400] + '...'))
-                    continue
-                verdict, model, secs, engine = solve.check(cons, z3.Not(claim),
-                                                          ob.timeout_s * 1000 * timeout_scale)
-                res['queries'] += 1
-                res['solver_s'] += secs
-                entry = dict(name=name, path=pi_, chart=p.chart, verdict=verdict, s=round(secs, 3),
-                             engine=engine)
-                if len(sample_claims) < 3:
-                    txt = str(sc)
-                    sample_claims.append(dict(claim=name, path_decisions=len(c.decisions),
-                                              n_constraints=len(cons),
-                                              smt=txt if len(txt) < 400 else txt[:400] + '...'))
-                if verdict == 'unknown' and ob.witness:
-                    model = solve.witness_search(c, z3.Not(claim), 4000, seed)
-                    res['queries'] += 1
-                    if model is not None:
-                        verdict = 'sat'
-                        entry['engine'] = 'z3-witness-search'
-                if verdict == 'sat':
-                    env = derive_env(c, model)
-                    tables = uf_tables_from_model(c, model)
-                    rep = replay_env(ob, env, tables, name)
-                    entry['replay'] = rep['status']
-                    if rep['status'] == 'reproduced':
-                        entry['verdict'] = 'violated'
-                        res['violations'].append(dict(claim=name, env=env, uf_tables=tables,
-                                                      discrepancy=rep.get('discrepancy'),
-                                                      failed=rep.get('failed')))
-                    else:
-                        entry['verdict'] = 'sat-not-reproduced'
-                        entry['replay_detail'] = rep
-                        res['errors'].append(f"claim {name}: solver model did not reproduce "
-                                             f"({rep['status']}); env={env}")
-                elif verdict == 'unknown':
-                    res['undecided'].append(name)
-                res['claims'].append(entry)
         res['assumptions'] = sorted(seen_assump)
         res['samples'] = sample_claims
-        if all_paths:
-            res['inputs'] = sorted(all_paths[0].c.inputs)
-        # encoding validation on the standard-chart paths
-        std = [p for p in all_paths if p.chart == 'std']
-        nv, mism, viol = validate(ob, std, seed, ob.nvalid)
-        res['validated'] = nv
-        for mm in mism[:5]:
-            res['errors'].append(f"encoding mismatch: {mm}")
-        if ob.nvalid and std and nv == 0 and not mism:
-            res['notes'].append("encoding validation found no admissible random input")
-        for v in viol[:3]:
-            res['violations'].append(dict(claim=v['claim'], env=v['env'], uf_tables={},
-                                          discrepancy=v['discrepancy'], failed=[v['claim']],
-                                          found_by='validation-run'))
     except PathBudget:
         res['errors'].append("decision budget exhausted")
     except Exception as e:
